@@ -9,7 +9,8 @@ from . import replay
 
 RUNNER = os.path.join(replay.HERE, "runner", "run_roundtrip.py")
 STRS = ["plain", "two words", 'say "hi"', "it's", "C:\\temp\\new.csv", "back\\slash", "a,b=c(d)[e]#f:g", "caf\u00e9", "\u4e2d", " padded ", "", "tab\there",
-        "ends with backslash\\", "quote at end\"", "line\nbreak", "007", "1.5", "true", "N0"]
+        "ends with backslash\\", "quote at end\"", "line\nbreak", "007", "1.5", "true", "N0", "emoji \U0001F600 tree \U0001F333", "\U0001D4B3 math",
+        "\u00ff\u0100 latin-1 edge", "\\u0041 literal escape text", "\\n not a newline"]
 NUMS = [0, 7, -3, 1.5, -0.25, 1e-05, 1.3e+20, 123456789.125, 5e-324, 1e22, 2.0, 100000000000000000000]
 
 
@@ -67,7 +68,7 @@ def cases(tier, seed=0):
         for _ in range(300):
             args = {}
             if rnd.random() < 0.6:
-                args["S"] = {"str": "".join(rnd.choice(['a', ' ', '"', "'", '\\', ',', '#', '\u00e9', 'n', '=', '[', ')']) for _ in range(rnd.randint(0, 8)))}
+                args["S"] = {"str": "".join(rnd.choice(['a', ' ', '"', "'", '\\', ',', '#', '\u00e9', 'n', '=', '[', ')', '\U0001F600', 'u', '0']) for _ in range(rnd.randint(0, 8)))}
             if rnd.random() < 0.5:
                 args["N"] = {"num": rnd.choice(NUMS) * rnd.choice([1, -1, 1e-7, 1e9])}
             if rnd.random() < 0.4:
